@@ -99,6 +99,16 @@ func checkC08(c *Ctx) {
 		}
 	}
 	// newline inside a string is not a delimiter (and is a control character)
+	// an invalid line whose only defect is a byte glued to a closing quote, with that quote at
+	// every offset of a 64-byte block (the "previous byte may precede a value" carry between
+	// blocks must include quotes)
+	for pad := 0; pad < 130; pad++ {
+		for _, bad := range []string{`{"k":"v"x}`, `["ab"1]`, `{"k":"v"true}`} {
+			first := `{"p":"` + strings.Repeat("q", pad) + `"}`
+			add("junk-after-quote", []byte(first+"\n"+bad+"\n[1]\n"))
+			add("junk-after-quote", []byte(first+"\n[2]\n"+bad))
+		}
+	}
 	// a line holding a long string (384..1300 bytes, with and without escapes) that ends within
 	// 64 bytes of the end of the line: first, in the middle, last (the padded-copy path of the
 	// string parser is only taken at the very end of the input), LF/CRLF, trailing blank lines
